@@ -139,8 +139,8 @@ func Sync(logger *log.Logger, oldVersion string, newVersion string, dryRun bool)
 	errs, _ := errgroup.WithContext(ctx)
 
 	for i := 0; i < runtime.GOMAXPROCS(0); i++ {
+		wg.Add(1)
 		errs.Go(func() error {
-			wg.Add(1)
 			for task := range tasks {
 				hasher := xxhash.New()
 				r := io.NewSectionReader(oldFile, int64(oldHeader.TileDataOffset+task.OldOffset), int64(task.NewBlock.Length))
